@@ -339,6 +339,29 @@ func (s *scriptServer) serve(nc net.Conn) {
 				}
 			case "redirect-to":
 				rs = &resp{Status: 301, Hdr: [][2]string{{"CSeq", cseq}, {"Location", strings.ReplaceAll(m.Arg, "{addr}", s.addr())}}}
+			case "chatter":
+				// never answer this request, but keep the connection busy: stale responses or
+				// unsolicited requests every 100 ms (each one counted as a repetition)
+				skip = true
+				go func(kind string) {
+					for i := 0; i < 80 && !s.closed.Load(); i++ {
+						time.Sleep(100 * time.Millisecond)
+						var b []byte
+						switch kind {
+						case "stale-response":
+							b = (&resp{Status: 200, Hdr: [][2]string{{"CSeq", "99999"}}}).bytes()
+						case "server-request":
+							b = []byte(fmt.Sprintf("OPTIONS %s RTSP/1.0\r\nCSeq: %d\r\n\r\n", u, 1000+i))
+						default:
+							b = frameBytes(0, rtpPacket(96, i, rand.New(rand.NewSource(int64(i))), 40))
+						}
+						_ = nc.SetWriteDeadline(time.Now().Add(time.Second))
+						if _, err := nc.Write(b); err != nil {
+							return
+						}
+						s.Repeats.Add(1)
+					}
+				}(m.Arg)
 			case "auth-loop":
 				s.Repeats.Add(1)
 				rs = &resp{Status: 401, Hdr: [][2]string{{"CSeq", cseq}, {"WWW-Authenticate", m.Arg}}}
